@@ -7,8 +7,10 @@ Open Scope N_scope.
 Inductive case :=
   (** A history on one plugin instance (lazy_cache_ttl, operations) and what
       each operation showed. The driver runs it inside one wall-clock second
-      (plus the whole seconds of [OWait]); dump times are whole seconds. *)
-| CSeq (lazy_ttl : Z) (ops : list op) (observed : list obs)
+      (plus the whole seconds of [OWait]); dump times are whole seconds.
+      [refresh_missing]: a stale hit with no refresh running for its question
+      did not start one (the driver then gives up on the case). *)
+| CSeq (lazy_ttl : Z) (ops : list op) (observed : list obs) (refresh_missing : bool)
   (** uint32(time.Unix(now_s, now_ns).Sub(time.Unix(stored_s, 0)).Seconds()) *)
 | CElapsed (now_s now_ns stored_s : Z) (observed : N)
   (** dnsutils.GetMinimalTTL, SubtractTTL(delta), SetTTL(set) on a message *)
@@ -51,8 +53,9 @@ Definition burst_lazy : Z := 3600.
 
 Definition agree (c : case) : bool :=
   match c with
-  | CSeq lazy_ttl ops observed =>
-    list_eqb obs_eqb (model_seq lazy_ttl 1000000 ops) observed
+  | CSeq lazy_ttl ops observed refresh_missing =>
+    negb refresh_missing
+    && list_eqb obs_eqb (model_seq lazy_ttl 1000000 ops) observed
     && list_eqb obs_eqb (model_seq lazy_ttl 998000000 ops) observed
   | CElapsed now_s now_ns stored_s observed =>
     elapsed_with secs_go (now_s * second + now_ns) (stored_s * second) =? observed
@@ -127,57 +130,94 @@ Definition sane_obs (lazy_ttl : Z) (b : obs) : bool :=
 
 Definition no_extra_opt (rs : list rr) : list rr := filter (fun r => negb (rr_opt r && (rr_sec r =? 2))) rs.
 
-Definition spec_seq (lazy_ttl : Z) (ops : list op) (observed : list obs) : bool :=
-  forallb (sane_obs lazy_ttl) observed &&
-  match ops, observed with
-  | [OLoad k age ml cl m; OExec k' None], [BNone; BExec served lz] =>
-    if negb (k =? k') then true else
-    if (age <? cl)%Z then
-      if (age <? ml)%Z then
+(** The oracle for histories works in whole seconds only: per question the
+    last entry written (age when written, second in which it was written,
+    message and cache lifetimes, records); an entry is alive while age < cache
+    lifetime and fresh while age < message lifetime (the case runs strictly
+    inside a second, dump times are whole seconds). *)
+Record sent := SEnt { s_age0 : Z; s_t0 : Z; s_ml : Z; s_cl : Z; s_rrs : list rr }.
+Fixpoint sfind (k : N) (l : list (N * sent)) : option sent :=
+  match l with
+  | [] => None
+  | (k', e) :: t => if k' =? k then Some e else sfind k t
+  end.
+Definition sset (k : N) (e : sent) (l : list (N * sent)) : list (N * sent) :=
+  (k, e) :: filter (fun p => negb (fst p =? k)) l.
+Fixpoint sins (x : N * sent) (l : list (N * sent)) : list (N * sent) :=
+  match l with
+  | [] => [x]
+  | y :: t => if fst x <=? fst y then x :: l else y :: sins x t
+  end.
+
+(** lifetimes in seconds by the property's rule; None = must not be stored *)
+Definition spec_life (lazy_ttl : Z) (m : msg) : option (Z * Z) :=
+  let mn := spec_min (m_rrs m) in
+  let ans := existsb (fun r => rr_sec r =? 0) (m_rrs m) in
+  if m_tc m then None
+  else if m_rcode m =? 3 then Some (30, 30)%Z
+  else if m_rcode m =? 2 then Some (5, 5)%Z
+  else if m_rcode m =? 0 then
+    if mn =? 0 then None
+    else if ans then Some (Z.of_N mn, if (0 <? lazy_ttl)%Z then lazy_ttl else Z.of_N mn)
+    else Some (Z.of_N (N.min 300 mn), Z.of_N (N.min 300 mn))
+  else None.
+
+Definition is_miss (served : option (list rr)) (lz : bool) : bool :=
+  negb lz && match served with None => true | Some _ => false end.
+
+Definition check_exec (lazy_ttl : Z) (en : option sent) (t : Z) (served : option (list rr)) (lz : bool) : bool :=
+  match en with
+  | Some s =>
+    let age := (s_age0 s + (t - s_t0 s))%Z in
+    if (age <? s_cl s)%Z then
+      if (age <? s_ml s)%Z then
         (* alive and not expired: aged by the whole seconds elapsed *)
         negb lz &&
         match served with
         | Some rs =>
-          if (0 <=? age)%Z && (age <? 4294967296)%Z then rrs_by (aged_by (Z.to_N age)) (m_rrs m) rs
+          if (0 <=? age)%Z && (age <? 4294967296)%Z then rrs_by (aged_by (Z.to_N age)) (s_rrs s) rs
           else true (* crafted stored time (future, or 2^32 s and more ago): not the property's concern *)
         | None => false
         end
       else if (0 <? lazy_ttl)%Z then
-        lz && match served with Some rs => rrs_by (fun _ => 5) (m_rrs m) rs | None => false end
-      else negb lz && match served with None => true | Some _ => false end
-    else negb lz && match served with None => true | Some _ => false end
-  | [OExec k (Some m); ODump; OExec k' None], [BExec None false; BDump d; BExec served lz] =>
-    if negb (k =? k') then true else
-    let mn := spec_min (m_rrs m) in
-    let ans := existsb (fun r => rr_sec r =? 0) (m_rrs m) in
-    if (9223372036 <? lazy_ttl)%Z && ans then true (* lazy_cache_ttl overflows time.Duration *) else
-    let life : option (Z * Z) :=
-      if m_tc m then None
-      else if m_rcode m =? 3 then Some (30, 30)%Z
-      else if m_rcode m =? 2 then Some (5, 5)%Z
-      else if m_rcode m =? 0 then
-        if mn =? 0 then None
-        else if ans then Some (Z.of_N mn, if (0 <? lazy_ttl)%Z then lazy_ttl else Z.of_N mn)
-        else Some (Z.of_N (N.min 300 mn), Z.of_N (N.min 300 mn))
-      else None in
-    match life with
-    | Some (a, b) =>
-      list_eqb dump_eqb d [(k, (0%Z, a, b), no_extra_opt (m_rrs m))]
-      && negb lz
-      && match served with
-         | Some rs => rrs_by (aged_by 0) (no_extra_opt (m_rrs m)) rs
-         | None => false
-         end
-    | None =>
-      match d with [] => true | _ => false end
-      && negb lz && match served with None => true | Some _ => false end
-    end
-  | _, _ => true
+        lz && match served with Some rs => rrs_by (fun _ => 5) (s_rrs s) rs | None => false end
+      else is_miss served lz
+    else is_miss served lz
+  | None => is_miss served lz
   end.
+
+Fixpoint spec_go (lazy_ttl t : Z) (st : list (N * sent)) (ops : list op) (observed : list obs) : bool :=
+  match ops, observed with
+  | [], [] => true
+  | OLoad k age ml cl m :: ops', BNone :: obs' =>
+    spec_go lazy_ttl t (if (age <? cl)%Z then sset k (SEnt age t ml cl (m_rrs m)) st else st) ops' obs'
+  | OExec k resp :: ops', BExec served lz :: obs' =>
+    check_exec lazy_ttl (sfind k st) t served lz &&
+    match resp with
+    | None => spec_go lazy_ttl t st ops' obs'
+    | Some m =>
+      if (9223372036 <? lazy_ttl)%Z && existsb (fun r => rr_sec r =? 0) (m_rrs m)
+      then true (* lazy_cache_ttl overflows time.Duration: outside the property *)
+      else match spec_life lazy_ttl m with
+           | Some (a, b) => spec_go lazy_ttl t (sset k (SEnt 0 t a b (no_extra_opt (m_rrs m))) st) ops' obs'
+           | None => spec_go lazy_ttl t st ops' obs'
+           end
+    end
+  | ODump :: ops', BDump d :: obs' =>
+    list_eqb dump_eqb d
+      (map (fun p => let s := snd p in (fst p, ((s_age0 s + (t - s_t0 s))%Z, s_ml s, s_cl s), s_rrs s))
+           (fold_right sins [] (filter (fun p => let s := snd p in (s_age0 s + (t - s_t0 s) <? s_cl s)%Z) st)))
+    && spec_go lazy_ttl t st ops' obs'
+  | OWait w :: ops', BNone :: obs' => spec_go lazy_ttl (t + Z.max 0 w)%Z st ops' obs'
+  | _, _ => false
+  end.
+
+Definition spec_seq (lazy_ttl : Z) (ops : list op) (observed : list obs) : bool :=
+  forallb (sane_obs lazy_ttl) observed && spec_go lazy_ttl 0 [] ops observed.
 
 Definition spec (c : case) : bool :=
   match c with
-  | CSeq lazy_ttl ops observed => spec_seq lazy_ttl ops observed
+  | CSeq lazy_ttl ops observed refresh_missing => negb refresh_missing && spec_seq lazy_ttl ops observed
   | CElapsed now_s now_ns stored_s observed =>
     let d := ((now_s - stored_s) * 1000000000 + now_ns)%Z in
     let q := (d / 1000000000)%Z in
@@ -210,7 +250,7 @@ Definition op_nontrivial (o : op) : bool :=
   end.
 Definition nontrivial (c : case) : bool :=
   match c with
-  | CSeq _ ops observed =>
+  | CSeq _ ops observed _ =>
     existsb op_nontrivial ops
     || existsb (fun b => match b with BExec _ true => true | _ => false end) observed
   | CElapsed now_s now_ns stored_s _ =>
